@@ -81,7 +81,8 @@ def compare_all(rec, lab, s, case, junk_phase=False, baseline=None):
         rec.nt(case["uid"] + "|" + s)
     paths = [n for n in res if n.startswith("paths:")]
     for a in paths[1:]:
-        if res[a] != res[paths[0]]:
+        # (configurations answer identically when they hold the same entities)
+        if lab.exists[a.split(":", 1)[1]] == lab.exists[paths[0].split(":", 1)[1]] and res[a] != res[paths[0]]:
             rec.violation("configs_disagree", dict(case, finder=a), "%s only=%r %s only=%r" % (
                 paths[0], sorted(res[paths[0]] - res[a])[:5], a, sorted(res[a] - res[paths[0]])[:5]))
     dflt = "paths:" + lab.default_config
@@ -93,9 +94,11 @@ def compare_all(rec, lab, s, case, junk_phase=False, baseline=None):
     e_typed = {e for e in ex if any(gmatch(f, e) and lab.model.natural(e).name == t for t, f in forms)}
     if ">" not in s:
         for a in paths:
-            if res[a] != e_typed:
+            ex_a = lab.exists[a.split(":", 1)[1]]
+            e_typed_a = {e for e in ex_a if any(gmatch(f, e) and lab.model.natural(e).name == t for t, f in forms)}
+            if res[a] != e_typed_a:
                 rec.violation("paths_vs_expected", dict(case, finder=a), "missing=%r extra=%r" % (
-                    sorted(e_typed - res[a])[:5], sorted(res[a] - e_typed)[:5]))
+                    sorted(e_typed_a - res[a])[:5], sorted(res[a] - e_typed_a)[:5]))
         if res["list"] != e_text:
             rec.violation("list_vs_expected", case, "missing=%r extra=%r" % (sorted(e_text - res["list"])[:5], sorted(res["list"] - e_text)[:5]))
     if e_text == e_typed:
@@ -123,7 +126,7 @@ def worker(args):
     if "replay" in args:
         c = args["replay"]
         rec.ev()
-        lab.new_universe(ents=c["ents"], names=c.get("names"))
+        lab.new_universe(ents=c["ents"], names=c.get("names"), only_default=c.get("only_default"))
         base = compare_all(rec, lab, c["search"], dict(c))
         if c.get("junk_seed") is not None:
             import random
@@ -140,7 +143,7 @@ def worker(args):
         baselines = {}
         for s in searches:
             rec.ev()
-            case = {"search": s, "ents": ents, "names": lab.names, "uid": uid}
+            case = {"search": s, "ents": ents, "names": lab.names, "only_default": lab.only_default, "uid": uid}
             baselines[s] = compare_all(rec, lab, s, case)
             # as_sid: results typed, same strings
             if rng.random() < 0.15 and baselines[s] is not None:
@@ -157,7 +160,7 @@ def worker(args):
         for s in searches:
             if baselines[s] is None:
                 continue
-            case = {"search": s, "ents": ents, "names": lab.names, "uid": uid, "junk_seed": junk_seed}
+            case = {"search": s, "ents": ents, "names": lab.names, "only_default": lab.only_default, "uid": uid, "junk_seed": junk_seed}
             compare_all(rec, lab, s, case, junk_phase=True, baseline=baselines[s])
         if u == 0:
             root = lab.trees.pms[lab.default_config].root
